@@ -290,6 +290,12 @@ def check_fit(case, ctx):
             Tdat = T
         Cd = np.array([float(model.get_CpoR(T=float(t))) for t in Tdat])
         got = np.array([float(np.ravel(obj.get_CpoR(T=float(t)))[0]) for t in Tdat])
+        # a data point exactly on a break is fitted with one segment and evaluated with the other (the C02 rule):
+        # its residual is the Cp jump of the piecewise form, not fit quality
+        offb = ~np.isin(Tdat, np.asarray(breaks, dtype=float)) if len(breaks) else np.ones(len(Tdat), dtype=bool)
+
+        def rms_lib(w):
+            return float(np.sqrt(np.sum(((got - Cd) * w)[offb] ** 2) / len(Tdat)))
 
         def lsq_resid(x, y, deg):
             xs = (x - x.mean()) / (x.std() + 1e-300)
@@ -299,7 +305,7 @@ def check_fit(case, ctx):
             tt = Tdat / 1000.0
             A = np.stack([np.ones_like(tt), tt, tt ** 2, tt ** 3, 1.0 / tt ** 2], axis=1)
             r_ref = float(np.sqrt(np.mean((A @ np.linalg.lstsq(A, Cd, rcond=None)[0] - Cd) ** 2)))
-            r_lib = float(np.sqrt(np.mean((got - Cd) ** 2)))
+            r_lib = rms_lib(1.0)
             norm = cnorm
         elif fam == 'nasa7':
             tm = breaks[0]
@@ -308,7 +314,7 @@ def check_fit(case, ctx):
                 if mask.sum() >= 6:
                     r2 += float(np.sum(lsq_resid(Tdat[mask], Cd[mask], 4) ** 2))
             r_ref = math.sqrt(r2 / len(Tdat))
-            r_lib = float(np.sqrt(np.mean((got - Cd) ** 2)))
+            r_lib = rms_lib(1.0)
             norm = cnorm
         else:
             # NASA-9 fits Cp T^2 by a 6th-order polynomial on each interval: compare in that space
@@ -318,8 +324,23 @@ def check_fit(case, ctx):
                 if mask.sum() >= 8:
                     r2 += float(np.sum(lsq_resid(Tdat[mask], Cd[mask] * Tdat[mask] ** 2, 6) ** 2))
             r_ref = math.sqrt(r2 / len(Tdat))
-            r_lib = float(np.sqrt(np.mean(((got - Cd) * Tdat ** 2) ** 2)))
+            r_lib = rms_lib(Tdat ** 2)
             norm = cnorm * float(np.mean(Tdat ** 2))
+        if fam == 'nasa9' and r_lib > 5.0 * r_ref + 2e-4 * norm:
+            # root-cause split: _fit_CpoR9 selects (T > T1) & (T <= T2) on every interval, so the datum at T_low is
+            # never fitted; if the fit is as good as the reference on the data it did use, that is the cause
+            keep = offb & (Tdat > segs[0][0])
+            r_lib2 = float(np.sqrt(np.sum(((got - Cd) * Tdat ** 2)[keep] ** 2) / len(Tdat)))
+            r2 = 0.0
+            for s_ in segs:
+                mask = (Tdat > s_[0]) & (Tdat <= s_[1])
+                if mask.sum() >= 8:
+                    r2 += float(np.sum(lsq_resid(Tdat[mask], Cd[mask] * Tdat[mask] ** 2, 6) ** 2))
+            if r_lib2 <= 5.0 * math.sqrt(r2 / len(Tdat)) + 2e-4 * norm:
+                ctx.fail(tag + '/fit-worse-than-reference-lsq:datum-at-T_low-not-fitted',
+                         'rms residual %.3g vs reference least squares %.3g (norm %.3g); %.3g without the T_low datum' % (
+                             r_lib, r_ref, norm, r_lib2))
+                return
         if r_lib > (5.0 if fam == 'nasa9' else 3.0) * r_ref + 2e-4 * norm:
             ctx.fail(tag + '/fit-worse-than-reference-lsq', 'rms residual %.3g vs reference least squares %.3g (norm %.3g)' % (
                 r_lib, r_ref, norm))
